@@ -465,6 +465,48 @@ def rule_o9(repo):
                                 t.lineno, r.lineno, src(t.ast, 60), 'true' if need_true else 'false'), '%s:%d' % (m.rel, t.lineno))
     return res
 
+def rule_o10(repo):
+    """A row without variables is a constraint all the same: 0 <= c holds or fails by its constant, and no elimination step
+    will ever look at it again (there is no variable to eliminate).  So every row that is *new* to a database - made from
+    the input, or by combining two rows - is decided by its constant if it has no variable, before it is filed: the insert
+    is reached only where `is_false_factoid()` answered no.  (Rows copied from one database into another were decided
+    when they were new.)  The two places that make new rows are siblings; the one for derived rows had the test, the one
+    for input rows did not: [[0, -2], [1, -1]] was answered SAT."""
+    res = RuleResult('C16.O10', 'a new row enters the constraint database only after a row without variables was decided by its constant', floor=2)
+    m = repo.module('prover/omega.py')
+    for f in m.all_funcs:
+        if f.name == 'insert_db':
+            continue
+        calls = [c for c in ast.walk(f.node) if isinstance(c, ast.Call) and is_name(c.func, 'insert_db') and len(c.args) == 2 and isinstance(c.args[1], ast.Name)]
+        own = {id(x) for g in f.nested.values() for x in ast.walk(g.node)} if getattr(f, 'nested', None) else set()
+        calls = [c for c in calls if id(c) not in own]
+        if not calls:
+            continue
+        cfg = cfg_of(f.node)
+        for c in calls:
+            v = c.args[1].id
+            # copied from an existing database: the element of a loop over the values of a dictionary
+            copied = False
+            for lp in ast.walk(f.node):
+                if isinstance(lp, ast.For) and is_name(lp.target, v) and any(x is c for st in lp.body for x in ast.walk(st)):
+                    outer = [o for o in ast.walk(f.node) if isinstance(o, ast.For) and any(x is lp for st in o.body for x in ast.walk(st)) and
+                             isinstance(o.iter, ast.Call) and call_attr(o.iter) in ('items', 'values')]
+                    if (isinstance(lp.iter, ast.Name) and outer) or (isinstance(lp.iter, ast.Call) and call_attr(lp.iter) in ('values',)):
+                        copied = True
+            if copied:
+                continue
+
+            def decided(e, pol, v=v):
+                return not pol and isinstance(e, ast.Call) and call_attr(e) == 'is_false_factoid' and src(e.func.value) in (v + '.factoid', v)
+            edges = cfg.establishing_edges(decided)
+            n = cfg.node_for(c)
+            ok = bool(edges) and n is not None and cfg.path_avoiding(n, skip_edges=edges) is None
+            res.add('%s :: %s :: new-row(%s)' % (m.rel, f.qualname, v), ok,
+                    'filed only after `%s.factoid.is_false_factoid()` answered no' % v if ok else
+                    'line %d files the new row `%s` without asking whether it is a row without variables and a negative constant: 0 <= -2 stays in '
+                    'the database, no step ever looks at it, and the system is answered SAT' % (c.lineno, v), '%s:%d' % (m.rel, c.lineno))
+    return res
+
 
 def rules(repo):
-    return [rule_o1(repo), rule_o2(repo), rule_o3(repo), rule_o4(repo), rule_o5(repo), rule_o6(repo), rule_o7(repo), rule_o8(repo), rule_o9(repo)]
+    return [rule_o1(repo), rule_o2(repo), rule_o3(repo), rule_o4(repo), rule_o5(repo), rule_o6(repo), rule_o7(repo), rule_o8(repo), rule_o9(repo), rule_o10(repo)]
